@@ -1,5 +1,5 @@
 """C15: identifier / PGN / NAME codecs - proof obligations discharged in the known-bits domain."""
-from sa.sym import SELF, is_const, cval, pretty, walk, mk_cmp, mk_not, mk_bin, SymEval
+from sa.sym import SELF, contains, is_const, cval, pretty, walk, mk_cmp, mk_not, mk_bin, SymEval
 from sa.model import AnalysisError, EnumVal
 from sa import guards as G
 from sa.bits import BV, BitEval, T
@@ -18,6 +18,10 @@ def _leaf(widths):
 def _expect(ctx, rule, f, inst, bv, want_bits, width=None):
     """obligation: bv == want_bits (list) with nothing above"""
     n = len(want_bits)
+    lossy = BitEval.pop_lossy()
+    if bv.has_top() and lossy:
+        ctx.violated(rule, f, inst, "not exact: %s" % lossy[0], f.node, witness=bv.describe())
+        return
     if bv.has_top():
         ctx.unknown(rule, "%s: not interpretable in the known-bits domain (%s)" % (inst, bv.describe()))
         return
@@ -114,24 +118,35 @@ def pgn(ctx, rule="O-PGN"):
         _expect(ctx, rule, fm, "value(from_message_id(m)) = m.pgn[0..16] (extended data page bit 17 is not represented)",
                 be2.ev(o2.get("value")), src("pgn", 0, 17))
     # PDU1 / PDU2 classification over the whole byte domain
-    o3 = Obj(P, "ParameterGroupNumber", {"pdu_format": ("p", "pf"), "data_page": ("c", 0), "pdu_specific": ("c", 0)})
+    o3 = Obj(P, "ParameterGroupNumber", {"pdu_format": ("p", "pf"), "data_page": ("p", "dp"), "pdu_specific": ("p", "ps")})
     for prop, pred, txt in (("is_pdu1_format", lambda v: v <= 239, "PF <= 239"), ("is_pdu2_format", lambda v: v >= 240, "PF >= 240")):
         g = P.func("ParameterGroupNumber", prop)
         try:
             s = o3.get(prop)
-            bad = [v for v in range(256) if bool(eval_pred(s, {("p", "pf"): v})) != pred(v)]
+            # the classification is a function of PF alone: enumerate every other field the extracted formula mentions as well
+            dps = (0, 1) if contains(s, ("p", "dp")) else (0,)
+            pss = range(256) if contains(s, ("p", "ps")) else (0,)
+            bad = []
+            for dp in dps:
+                for ps in pss:
+                    for v in range(256):
+                        if bool(eval_pred(s, {("p", "pf"): v, ("p", "dp"): dp, ("p", "ps"): ps})) != pred(v):
+                            bad.append((dp, v, ps))
+                    if len(bad) > 6:
+                        break
         except AnalysisError as e:
             ctx.unknown(rule, "%s: %s" % (prop, e))
             continue
-        inst = "%s <=> %s for every PF in 0..255" % (prop, txt)
+        inst = "%s <=> %s for every PF in 0..255 (and every data page / PS)" % (prop, txt)
         if bad:
-            ctx.violated(rule, g, inst, "classification differs for PF = %s" % bad[:6], g.node)
+            ctx.violated(rule, g, inst, "classification differs for (data page, PF, PS) = %s" % bad[:4], g.node)
         else:
             ctx.holds(rule, inst)
 
 
 def name(ctx, rule="O-NAME"):
     from spec import sae
+    BitEval.pop_lossy()
     P = ctx.prog
     init = P.func("Name", "__init__")
     spec = {f: (lo, n) for lo, n, f in sae.NAME}
